@@ -12,6 +12,7 @@ CONSTANTS
  MaxEvents = 2
  MaxFaults = 1
  MaxTicks = 0
+ MaxBreaks = 0
  Export = TRUE
  RunToBlock = TRUE
  Mut = "none"
